@@ -366,13 +366,13 @@ def gen_cases(ctx):
         if len(s.encode()) <= 65536:
             add("seed", s)
     cc = corner_cases(rng, not ctx.quick())
-    for s in (cc if not ctx.quick() else rng.sample(cc, min(len(cc), 12000))):
+    for s in (cc if not ctx.quick() else rng.sample(cc, min(len(cc), 8000))):
         add("corner", s)
     for s in nesting_cases(rng, [1, 2, 3, 10, 50, 100, 199, 200]):
         add("nesting", s)
-    for _ in range(ctx.n(12000, 60000)):
+    for _ in range(ctx.n(8000, 60000)):
         add("soup", token_soup(rng, rng.choice([1, 2, 3, 5, 8, 13, 30, 80]), tables))
-    for _ in range(ctx.n(12000, 60000)):
+    for _ in range(ctx.n(8000, 60000)):
         base = rng.choice(snippets) if rng.random() < 0.5 or not small else rng.choice(small)
         add("mutant", mutate(rng, base, tables))
     for _ in range(ctx.n(4000, 30000)):
@@ -401,47 +401,49 @@ def to_case(rng, origin, s):
 
 
 def run_impl(ctx, cases, timeout=1500):
-    """Sharded child processes; a shard that dies is bisected down to the offending input."""
-    env_to = os.environ.get("SV_CASE_TIMEOUT_MS")
-    if not env_to:
+    """Sharded child processes; a shard that dies (abort, stack overflow, signal, watchdog) loses its buffered
+    results, so its cases are re-run by recursive halving down to the offending input(s)."""
+    if not os.environ.get("SV_CASE_TIMEOUT_MS"):
         sv.ENV["SV_CASE_TIMEOUT_MS"] = "30000"
     rc, log, res = sv.run_harness_sharded(ctx, "lex", cases, timeout=timeout)
     crashes = []
     pending = [i for i, r in enumerate(res) if r is None]
-    rounds = 0
-    while pending and rounds < 8:
-        rounds += 1
-        if len(pending) <= sv.NPROC:
-            still = []
-            for i in pending:
-                rc1, log1, r1 = sv.run_harness(ctx, "lex", [cases[i]], tag="bisect", timeout=120)
-                if r1[0] is None:
-                    crashes.append((i, rc1, log1[-300:]))
-                    still.append(i)
-                else:
-                    res[i] = r1[0]
-            break
-        sub = [cases[i] for i in pending]
-        # contiguous blocks so that one offender kills one block
-        n = len(sub)
-        blocks = max(sv.NPROC, 1)
-        size = (n + blocks - 1) // blocks
-        newp = []
-        for b in range(blocks):
-            idx = pending[b * size:(b + 1) * size]
-            if not idx:
-                continue
-            rc1, log1, r1 = sv.run_harness(ctx, "lex", [cases[i] for i in idx], tag="bisect%d" % b, timeout=600)
-            for i, r in zip(idx, r1):
-                if r is None:
-                    newp.append(i)
-                else:
-                    res[i] = r
-        if len(newp) == len(pending) and len(pending) > sv.NPROC:
-            # no progress by blocks (several offenders): fall back to halving the first block only
-            pending = newp[: sv.NPROC]
-        else:
-            pending = newp
+    if not pending:
+        return res, crashes
+    import concurrent.futures
+    import threading
+    lock = threading.Lock()
+    counter = [0]
+
+    def resolve(idx):
+        if not idx:
+            return
+        with lock:
+            counter[0] += 1
+            tag = "bisect%d" % counter[0]
+        rc1, log1, r1 = sv.run_harness(ctx, "lex", [cases[i] for i in idx], tag=tag, timeout=600)
+        missing = []
+        for i, r in zip(idx, r1):
+            if r is None:
+                missing.append(i)
+            else:
+                res[i] = r
+        if not missing:
+            return
+        if len(idx) == 1:
+            with lock:
+                crashes.append((idx[0], rc1, log1[-300:]))
+            return
+        mid = len(idx) // 2
+        resolve(idx[:mid])
+        resolve(idx[mid:])
+
+    blocks = sv.NPROC
+    size = (len(pending) + blocks - 1) // blocks
+    parts = [pending[b * size:(b + 1) * size] for b in range(blocks)]
+    with concurrent.futures.ThreadPoolExecutor(max_workers=blocks) as ex:
+        list(ex.map(resolve, [p for p in parts if p]))
+    crashes.sort()
     return res, crashes
 
 
@@ -649,14 +651,13 @@ def evaluate(ctx, raw_cases, with_model=True):
             else:
                 continue
             break
-        # (c) the lexer error is what the parser reports when nothing else went wrong before it (same span)
         # (d) tie with the Coq model
         if m is not None:
             compared += 1
             ic = impl_canon(r)
             if ic != m and not (mode == 1 and same_but_escape_begin(src, ic, m)):
                 k, x, y = first_diff(ic, m)
-                failures.append({"key": "C05/model-differs/%s" % (x.split(" ")[0] or "token"),
+                failures.append({"key": "C05/model-differs/%s" % (x.strip("|").split(" ")[0] or "token"),
                                  "what": "lexer and Coq model disagree at lexeme %d on %r: implementation `%s`, model `%s`" % (k, src[:300], x, y),
                                  "replay": {"case": c, "impl": ic, "model": m}})
     stats = {"evaluations": evals, "grams": grams, "msgs": msgs, "sizes": sizes, "origins": origins, "compared": compared, "accepted": accepted, "crosschecked": n_cross,
